@@ -13,6 +13,7 @@ from __future__ import absolute_import
 from decimal import Decimal
 import math
 import random
+import re
 
 G_PER_MM = 50
 G_PER_TENTH_IN = 127
@@ -86,6 +87,35 @@ def region_spec(reg, rid):
             "r": float(fmt_mm(reg["r"]))}
 
 
+_WORD = re.compile(r"([A-Za-z])([-+]?[0-9]*\.?[0-9]+)")
+
+
+def respell(text, rng):
+    """
+    The same command in another legal spelling (same code, same words, same values): no blanks
+    between the words, several blanks, explicit plus signs, trailing zeros, a trailing blank.
+    Only G0-G3 / G92 lines made of plain words are touched.
+    """
+    parts = text.split(" ")
+    if parts[0] not in ("G0", "G1", "G2", "G3", "G92") or len(parts) < 2:
+        return text
+    if not all(_WORD.fullmatch(p) for p in parts[1:]):
+        return text
+    how = rng.choice(["glue", "glue", "blanks", "plus", "zeros", "trail"])
+    words = parts[1:]
+    if how == "plus":
+        words = [w[0] + "+" + w[1:] if w[1] not in "+-" else w for w in words]
+    elif how == "zeros":
+        words = [w + ("00" if "." in w else ".0") for w in words]
+    if how == "glue":
+        return parts[0] + "".join(words)
+    if how == "blanks":
+        return parts[0] + "  " + "   ".join(words)
+    if how == "trail":
+        return parts[0] + " " + " ".join(words) + " "
+    return parts[0] + " " + " ".join(words)
+
+
 class MotionGen(object):
     """Generates one program."""
 
@@ -103,6 +133,8 @@ class MotionGen(object):
             if foc == "clean" else None
         # "tiny": extrusion quanta of 1e-5 mm and relative round trips (C07)
         self.tiny = foc == "tiny"
+        # alternative spellings of move commands (section 8, rounds 4/5: input-space gaps)
+        self.respell = rng.random() < 0.5
         self.tinyE = Decimal(0)
         self.useInch = ((foc == "frames" and rng.random() < 0.7) or rng.random() < 0.15
                         or (foc == "extrusion" and rng.random() < 0.25)) and not self.tiny
@@ -318,6 +350,8 @@ class MotionGen(object):
         return "E" + fmt_mm(delta), delta
 
     def emit(self, text, extra=None):
+        if self.respell and self.rng.random() < 0.15:
+            text = respell(text, self.rng)
         self.steps.append(("g", text, extra or {}))
 
     # ------------------------------------------------------------------ actions
@@ -800,8 +834,9 @@ class MotionGen(object):
             self.emit("G21")
         self.emit(rng.choice(["G28", "G28", "G28 X Y Z", "G28 X0 Y0 Z0"]))
         self.ghost.homed = True
-        self.emit(rng.choice(["G1 Z0.2 F3000", "G1 Z0.3", "G0 Z1"]))
-        self.ghost.p["Z"] = {"G1 Z0.2 F3000": 10, "G1 Z0.3": 15, "G0 Z1": 50}[self.steps[-1][1]]
+        first = rng.choice(["G1 Z0.2 F3000", "G1 Z0.3", "G0 Z1"])
+        self.emit(first)
+        self.ghost.p["Z"] = {"G1 Z0.2 F3000": 10, "G1 Z0.3": 15, "G0 Z1": 50}[first]
         if self.useM83:
             self.emit("M83")
             self.ghost.eabs = False
